@@ -206,6 +206,24 @@ fn real_sample(ctx: &Ctx, tree: &Tree, cases: &[Case], idx: usize) {
                 Node::Symlink(t) => std::os::unix::fs::symlink(t, &full)?,
             }
         }
+        // every other sample: names that are not valid UTF-8 next to the others. The shell cannot
+        // represent them (they are in no expected result), but they must not hide the entries the
+        // directory stream returns after them
+        if (idx / 4) % 2 == 0 {
+            use std::os::unix::ffi::OsStrExt;
+            let mut dirs: Vec<std::path::PathBuf> = vec![dir.clone()];
+            for (p, n) in tree.iter() {
+                if matches!(n, Node::Dir) && p.as_str() != ROOT {
+                    dirs.push(dir.join(p.strip_prefix(ROOT).unwrap().trim_start_matches('/')));
+                }
+            }
+            for d in dirs {
+                for bad in [&b"n\xffm"[..], b"\xfe", b"a\xc3", b"\xffz", b"b\x80b", b"0\xff", b"zz\xe9"] {
+                    std::fs::write(d.join(std::ffi::OsStr::from_bytes(bad)), b"")?;
+                }
+            }
+            ctx.count("real_system_trees_with_non_utf8_names", 1);
+        }
         Ok(())
     };
     if mk().is_err() {
